@@ -116,7 +116,11 @@ func init() {
 		probeWant := "[[1, 2, 3], 2, 0]"
 		probeErrBC, _ := ugo.Compile([]byte("a := [1]\nb := 5\nreturn a[b]"), ugo.CompilerOptions{})
 		runs := 0
+		nviol := 0
 		for _, c := range cases {
+			if nviol >= 25 {
+				break // enough evidence; failing runs may cost seconds each
+			}
 			depths := []int{0}
 			switch c.Depth {
 			case "nearframes":
@@ -161,12 +165,13 @@ func init() {
 						ch <- res{ret: ret, err: err}
 					}()
 					var r res
-					t := time.NewTimer(30 * time.Second)
+					t := time.NewTimer(8 * time.Second)
 					select {
 					case r = <-ch:
 					case <-t.C:
 						vm.Abort()
-						out.put(N{"case": c, "depth": d, "args": ai, "what": "run did not end within 30 s", "kind": "violation"})
+						nviol++
+						out.put(N{"case": c, "depth": d, "args": ai, "what": "run did not end within 8 s", "kind": "violation"})
 						t.Stop()
 						continue
 					}
@@ -190,21 +195,49 @@ func init() {
 									bad = fmt.Sprint("follow-up run panics: ", p)
 								}
 							}()
-							vm.SetBytecode(probeBC)
-							ret, err := vm.Run(nil)
-							if err != nil || ret.String() != probeWant {
-								bad = fmt.Sprintf("follow-up run on the same VM returned %v / %v, a new VM returns %s", ret, errShort(err), probeWant)
-								return
+							// an error raised outside any try statement must still end the run (first: nothing has
+							// run on this VM since the failure)
+							runW := func() (ugo.Object, error) {
+								type rr struct {
+									o ugo.Object
+									e error
+								}
+								ch := make(chan rr, 1)
+								go func() {
+									defer func() {
+										if p := recover(); p != nil {
+											ch <- rr{nil, fmt.Errorf("PANIC: %v", p)}
+										}
+									}()
+									o, e := vm.Run(nil)
+									ch <- rr{o, e}
+								}()
+								select {
+								case x := <-ch:
+									return x.o, x.e
+								case <-time.After(5 * time.Second):
+									for i := 0; i < 200; i++ {
+										vm.Abort()
+										time.Sleep(time.Millisecond)
+									}
+									return nil, fmt.Errorf("follow-up run did not end within 5 s")
+								}
 							}
-							// an error raised outside any try statement must still end the run
 							vm.SetBytecode(probeErrBC)
-							ret, err = vm.Run(nil)
+							ret, err := runW()
 							if re, ok := err.(*ugo.RuntimeError); !ok || re.Err == nil || re.Err.Name != "IndexOutOfBoundsError" {
 								bad = fmt.Sprintf("follow-up run of a failing script on the same VM returned %v / %v, a new VM returns IndexOutOfBoundsError", ret, errShort(err))
+								return
+							}
+							vm.SetBytecode(probeBC)
+							ret, err = runW()
+							if err != nil || ret == nil || ret.String() != probeWant {
+								bad = fmt.Sprintf("follow-up run on the same VM returned %v / %v, a new VM returns %s", ret, errShort(err), probeWant)
 							}
 						}()
 					}
 					if bad != "" {
+						nviol++
 						out.put(N{"case": c, "depth": d, "args": ai, "what": bad, "kind": "violation", "src": src})
 					}
 				}
